@@ -225,6 +225,29 @@ type outEdge struct {
 
 // loopClauses collects the invariants and variant for a loop: from the function's
 // own contract and, for inlined frames, from "loop Callee.N:" clauses of its callers.
+func (e *Engine) loopApplies(fr *Frame, li *loopInfo, end bool) (out []Clause) {
+	add := func(lc *LoopContract) {
+		if lc == nil {
+			return
+		}
+		if end {
+			out = append(out, lc.ApplyEnd...)
+		} else {
+			out = append(out, lc.Apply...)
+		}
+	}
+	if fr.contract != nil {
+		add(fr.contract.Loops[li.ordinal])
+	}
+	key := fmt.Sprintf("%s.%d", fr.fn.Name(), li.ordinal)
+	for a := fr.parent; a != nil; a = a.parent {
+		if a.contract != nil && a.contract.InlLoops != nil {
+			add(a.contract.InlLoops[key])
+		}
+	}
+	return
+}
+
 func (e *Engine) loopClauses(fr *Frame, li *loopInfo) (invs []Clause, decr []Clause) {
 	if fr.contract != nil {
 		if lc := fr.contract.Loops[li.ordinal]; lc != nil {
@@ -257,7 +280,7 @@ func (e *Engine) enterLoop(fr *Frame, li *loopInfo, st *State) *State {
 		}
 	}
 	// write set of the loop body by a dry run
-	dry := func(from *State) *WriteSet {
+	dry := func(from *State, markLines int) *WriteSet {
 		ws := newWriteSet()
 		e.recorders = append(e.recorders, ws)
 		e.dry++
@@ -266,9 +289,11 @@ func (e *Engine) enterLoop(fr *Frame, li *loopInfo, st *State) *State {
 		fr.rets = saved
 		e.dry--
 		e.recorders = e.recorders[:len(e.recorders)-1]
+		// nothing defined during a dry run is referred to afterwards: drop it from the context
+		e.ctx.lines = e.ctx.lines[:markLines]
 		return ws
 	}
-	ws := dry(st)
+	ws := dry(st, len(e.ctx.lines))
 	mark := -1
 	granular := false
 	for _, hw := range ws.heap {
@@ -293,10 +318,11 @@ func (e *Engine) enterLoop(fr *Frame, li *loopInfo, st *State) *State {
 		}
 		scratch := st.clone()
 		mark = e.ctx.n
+		ml := len(e.ctx.lines)
 		e.dry++
 		e.havoc(scratch, coarse, "dry")
 		e.dry--
-		ws2 := dry(scratch)
+		ws2 := dry(scratch, ml)
 		for _, hw := range ws2.heap {
 			for r := range hw.refs {
 				if maxID(r) > mark {
@@ -350,6 +376,9 @@ func (e *Engine) enterLoop(fr *Frame, li *loopInfo, st *State) *State {
 		g := e.evalBool(inv.Expr, e.envAt(fr, h, li))
 		e.ctx.Assume(implies(h.pc, g))
 	}
+	for _, ap := range e.loopApplies(fr, li, false) {
+		e.applyLemma(e.envAt(fr, h, li), h, ap)
+	}
 	li.variant = nil
 	for _, d := range decr {
 		v := e.evalInt(d.Expr, e.envAt(fr, h, li))
@@ -396,6 +425,9 @@ func (e *Engine) closeLoop(fr *Frame, li *loopInfo, st *State) {
 		return
 	}
 	invs, decr := e.loopClauses(fr, li)
+	for _, ap := range e.loopApplies(fr, li, true) {
+		e.applyLemma(e.envAt(fr, st, li), st, ap)
+	}
 	for i, inv := range invs {
 		g := e.evalBool(inv.Expr, e.envAt(fr, st, li))
 		e.oblige(st, fr.label+fmt.Sprintf("inv-preserved/%d.%d", li.ordinal, i+1), g, inv.Pos, "loop invariant preserved: "+inv.Src, inv.Tags)
@@ -1161,7 +1193,9 @@ func (e *Engine) assumeGlobalInv(fr *Frame, st *State, g *ssa.Global) {
 		if e.ctx.decls[key] {
 			continue
 		}
-		e.ctx.decls[key] = true
+		if e.dry == 0 {
+			e.ctx.decls[key] = true
+		}
 		e.ctx.Assume(t)
 		e.note("invariant of immutable global " + gi.Name + " (proved against the package initialiser)")
 	}
